@@ -99,3 +99,6 @@ Proof. induction 1 as [|b bs Hb Hbs IH]; intros r Hr; [reflexivity|]. cbn [fold_
 (* the table-driven formulation is the bit-serial register, for every byte string *)
 Theorem crc_tab_is_crc bs : is_bytes bs -> Crc32.crc_tab bs = Crc32.crc bs.
 Proof. intro H. unfold Crc32.crc_tab, Crc32.crc. rewrite register_bits_of. apply tab_eq; [exact H|reflexivity]. Qed.
+
+Corollary compute_crc_is_table_driven bs : is_bytes bs -> Crc.compute_crc bs = to_be32 (Crc32.crc_tab bs).
+Proof. intro H. rewrite crc_tab_is_crc by exact H. apply compute_crc_is_mpeg2. Qed.
